@@ -236,7 +236,7 @@ CHECKS = {
              "reply (a held request chosen by index, correct reply carrying the marker or an Rerror), cancel (the caller abandons a pending call; its request stays unanswered or is answered late); "
              "a third of the steps are issued without waiting (concurrent callers, pipelined replies); buffered and rendezvous connections. The server checks on arrival that the tag is not NOTAG and not "
              "the tag of any received-and-unanswered request (abandoned ones included); the caller checks it got the result carrying its own marker. Plus: tag-wrap histories of 65.6k-67k calls with 1..6 early "
-             "requests left unanswered for ever, and allocateTag as a pure function (verif hook) over arbitrary in-use sets incl. nearly full and full. One call in 7 of the Mux histories cannot be sent "
+             "requests left unanswered for ever (a third of the error replies carry texts the library itself uses - 'duplicate tag', 'unknown tag', 'closed' ...), and allocateTag as a pure function (verif hook) over arbitrary in-use sets incl. nearly full and full. One call in 7 of the Mux histories cannot be sent "
              "(its context is already cancelled, or it is a Twalk larger than msize) while others are pending: it must fail promptly and leave the pending ones alone. TestC05_Depleted: all 65535 tags "
              "awaiting replies (0..3 live calls, the rest abandoned), then 1..3 calls too many: they fail, nothing is sent with a tag in use, the live calls still get their replies. TestC05_SlowReply "
              "(buffered connection that honours read and write deadlines): the reply to a pending call arrives in two pieces, the second 20..60 ms after the deadline (120..200 ms) of another, unanswered call. "
@@ -250,15 +250,17 @@ CHECKS = {
         pkg="client",
         race=True,
         level="fault_enumeration",
-        groups=[G("^TestC12_Hostile$", 300, 3000, shrinktime="15s"), G("^TestC12_ProbeD17$", 1, 1, shard=False)],
+        groups=[G("^TestC12_Hostile$", 300, 3000, shrinktime="15s"), G("^TestC12_BlockedWrite$", 40, 400, shrinktime="10s"), G("^TestC12_ProbeD17$", 1, 1, shard=False)],
         fuzz=[],
         rule="real CSession against a misbehaving scripted server: steps call / reply (good, Rerror, wrong R type, T message) / stray reply (unknown tag, NOTAG, repeated tag) / malformed frame "
              "(length prefix 0..3, oversize, garbage, short body, type 106, empty body) / per-call cancel / fault (peer close, I/O error on both directions, session context cancel), then further calls. "
              "Oracle: every call returns within 10 s of the event that decides it; after a fault all pending and later calls return errors; a cancelled call returns context.Canceled; a wrong-typed reply gives "
              "its caller an error; the process survives (a crash is recovered from the journal). After a stray or malformed frame the client may either carry on or give up on the session: both are accepted, "
-             "but the final close must release every caller. Non-trivial = at least one call pending when the misbehaviour happens.",
+             "but the final close must release every caller. TestC12_BlockedWrite (zero-buffer connection): 1..3 calls are pending, the server stops reading, one more call is issued (its request "
+             "cannot be written: the transport's loop is blocked), then a pending call's context is cancelled: it returns within 5 s; when the server reads again everything else completes. "
+             "Non-trivial = at least one call pending when the misbehaviour happens.",
         require_classes=dict(quick=["wrong_type_reply", "t_message_as_reply", "stray_unknown", "stray_notag", "stray_repeat", "malformed_badprefix", "malformed_oversize", "malformed_garbage",
-                                    "malformed_shortbody", "malformed_type106", "per_call_cancel", "fault_close", "fault_ioerr", "fault_neterr", "fault_localclose", "fault_ctxcancel", "late_reply_to_cancelled_call", "fault_with_pending_calls", "call_after_failure", "d17_probe", "own_deadline_expired", "own_deadline_short", "own_deadline_long_on_honouring_conn"], thorough=[]),
+                                    "malformed_shortbody", "malformed_type106", "per_call_cancel", "fault_close", "fault_ioerr", "fault_neterr", "fault_localclose", "fault_ctxcancel", "late_reply_to_cancelled_call", "fault_with_pending_calls", "call_after_failure", "d17_probe", "own_deadline_expired", "own_deadline_short", "own_deadline_long_on_honouring_conn", "cancel_while_transport_blocked_in_write"], thorough=[]),
         assumptions=["'the connection fails' is modelled as both directions failing; a connection that fails only for writes while reads keep working is not asserted",
                      "connection deadlines are not honoured by the buffered in-memory connection, so the library's 30 s default deadline never masks a hang",
                      "known finding D17: a call's own context *deadline* (as opposed to cancellation) is also applied to the shared connection's write; if it expires mid-write the session is poisoned for every later call. Per-call cancellation in the generated scripts therefore uses cancel, and a separate probe reports D17"],
